@@ -103,6 +103,18 @@ func (q *queueCtx) config() paths.Config {
 		},
 		Classify: func(n ast.Node) []paths.Event {
 			var out []paths.Event
+			// capacity setter: this.capacityN = <parameter>
+			if as, ok := n.(*ast.AssignStmt); ok && len(as.Lhs) == len(as.Rhs) {
+				for i, l := range as.Lhs {
+					if strings.HasPrefix(q.norm(l), "capacity") {
+						if id, ok := ast.Unparen(as.Rhs[i]).(*ast.Ident); ok {
+							if _, isVar := info.ObjectOf(id).(*types.Var); isVar {
+								out = append(out, paths.Event{Kind: "SETCAP", Arg: q.norm(l), Pos: as.Pos()})
+							}
+						}
+					}
+				}
+			}
 			// timing bookkeeping of the timed get: DEADLINE(D) = D := now() + timeout;
 			// REMAIN(R<-D) = R = D - now(); GOT(v) = v = GetNoWait()
 			if as, ok := n.(*ast.AssignStmt); ok && len(as.Lhs) == len(as.Rhs) {
@@ -329,6 +341,15 @@ func runC11(p *core.Program, r *core.Report) {
 			c11GetNoWait(r, name, pos, ps)
 		case mname == "GetTimeout":
 			c11Timeout(p, r, name, fi)
+		case strings.HasPrefix(mname, "SetCapacity"):
+			// the new capacity takes effect whatever its value (<= 0 means unbounded): stored on every path
+			bad := ""
+			for _, pa := range ps {
+				if !pa.Has("SETCAP") && !pa.Has("PANIC") {
+					bad = "a path returns without storing the new capacity (a guard ignores some values): the queue keeps its old bound, e.g. it can no longer be made unbounded"
+				}
+			}
+			r.Check(bad == "", "C11.capacity", name, pos, "capacity stored on every path", bad)
 		}
 		if (mname == "Get" || mname == "GetNoWait") && strings.Contains(n.Obj().Name(), "Double") {
 			ok := true
